@@ -503,10 +503,13 @@ def explore(run_once, max_preemptions, limit, rng=None, random_runs=0):
         yield ch, res
         if len(pre) < max_preemptions:
             last = pre[-1][0] if pre else -1
-            for (s, alts) in ch.branch:
-                if s > last:
-                    for off in range(1, alts + 1):
-                        stack.append(pre + ((s, off),))
+            kids = [pre + ((s, off),) for (s, alts) in ch.branch if s > last for off in range(1, alts + 1)]
+            room = max(0, limit - n - len(stack))
+            if len(kids) > room and room > 0:
+                # not all switch points fit the budget: take them evenly spread over the run, not just the earliest ones
+                step = len(kids) / float(room)
+                kids = [kids[int(i * step)] for i in range(room)]
+            stack.extend(kids)
     for i in range(random_runs):
         ch = RandomChooser(rng)
         res = run_once(ch)
